@@ -459,12 +459,12 @@ func c16Doc(p *core.Program, r *core.Report) {
 			if fn := eng.CalleeOf(info, c); fn != nil && types.Object(fn) == tableFn {
 				nTable++
 				// skips ambiguous entries
+				// what holds at the store includes "not ambiguous" (a guard clause that continues,
+				// or an enclosing `if !tag.Ambiguous {…}`)
 				skips := false
-				for _, s := range st.loop.Body.List {
-					if is, ok := s.(*ast.IfStmt); ok && strings.HasSuffix(eng.ExprStr(is.Cond), ".Ambiguous") && len(is.Body.List) == 1 {
-						if br, ok := is.Body.List[0].(*ast.BranchStmt); ok && br.Tok == token.CONTINUE {
-							skips = true
-						}
+				for _, f := range eng.FactsAt(st.loop.Body, st.as) {
+					if u, ok := eng.Unparen(f).(*ast.UnaryExpr); ok && u.Op == token.NOT && strings.HasSuffix(eng.ExprStr(u.X), ".Ambiguous") {
+						skips = true
 					}
 				}
 				r.Check(skips, "R16.3", key, pos, "names of conf.CreateTypesTable, ambiguous entries skipped", "the documentation lists the entries of the types table without skipping ambiguous ones: a name the checker rejects as ambiguous is documented")
